@@ -39,7 +39,21 @@ def check_calls(ctx, clause="D-b"):
         live = r.live_targets(cs, r.instantiated) or cs.targets
         cands = [t for t in live if not is_abstract_stub(t)] or live
         results = [(t, bind_args(cs.node, t)) for t in cands]
-        if cs.kind in ("slot", "byname"):
+        def _variant_family(ts):
+            kinds = {("no_inverse" if t.name.endswith("_no_inverse") else ("inverse" if t.name.endswith("_inverse") else None)) for t in ts}
+            return {"no_inverse", "inverse"} <= kinds and len({t.cls for t in ts}) == 1
+        if (cs.kind == "slot" or (cs.kind == "byname" and _variant_family([t for t, _ in results]))) \
+                and any(b["errors"] for _, b in results) and not all(b["errors"] for _, b in results):
+            # the slot holds one of several variants chosen by the configuration; a call that binds only some of them is
+            # fine when the caller itself exists for the same configuration (the repo's naming: *_no_inverse / *_inverse
+            # variants, or a direct-only strategy class), otherwise the other configuration crashes here
+            def variant(name):
+                return "no_inverse" if name.endswith("_no_inverse") else ("inverse" if name.endswith("_inverse") or name.endswith("_inverse_paths") else None)
+            from .direction import DIRECT_ONLY_CLASSES
+            cv = variant(cs.func.name) or ("no_inverse" if cs.func.cls is not None and cs.func.cls.name in DIRECT_ONLY_CLASSES else None)
+            binding = {variant(t.name) for t, b in results if not b["errors"]}
+            bad = not (cv is not None and binding == {cv})
+        elif cs.kind in ("slot", "byname"):
             bad = all(b["errors"] for _, b in results)
         else:
             bad = any(b["errors"] for _, b in results)
